@@ -130,6 +130,9 @@ def main():
         gi += 1
         if len(edges) >= len(ids) and "const" in src and "struct" in src:
             inputs.append([("m.pn", src + "fn main()\n{\n}\n")])
+    # lexical errors at the very end of a file that does not end in a newline: the location must still lie inside the file
+    for tail in ('"abc\\', "'\\", '"abc', "'a", '"\\x4', '"\\u{41', "0x", "1u7", "`", "\u00e9", '"abc\\\n', '"abc\\\r\n'):
+        inputs.append([("m.pn", "fn main()\n{\n\tvar x = " + tail)])
     inputs.append([("m.pn", "const A: usize = |:S|;\nconst B: usize = A + 16;\nconst C: usize = B + A;\nstruct S\n{\n\tbuf: [C]u8,\n}\nfn main()\n{\n}\n")])
     # diagnostics located at a type: every type to nesting depth 1 (2 in the thorough tier) in every position, as written
     # and with the type annotation wrapped over lines (the location of an annotation is built from the span of its tokens)
@@ -203,7 +206,9 @@ def main():
                 continue
             src = srcs[fname]
             nchars = len(src)
-            if not (0 <= s <= e <= max(nchars, 1) + 1):
+            # (a location AT the end of the file, for something that is missing there, may be one past the last character;
+            # a span that starts inside the file must end inside it, or the renderer drops its label)
+            if not (0 <= s <= e <= max(nchars, 1) + 1) or (s < nchars and e > nchars):
                 problems.append("E%d: span %d-%d outside the file (%d chars)" % (code, s, e, nchars))
                 continue
             true_line = src.count("\n", 0, s) + 1
